@@ -3762,8 +3762,10 @@ void space_text()
             {
                // preserve the position if virtual brace
                // Issue #1854
-               if (pc->Is(CT_VBRACE_OPEN))
+               if (  pc->Is(CT_VBRACE_OPEN)
+                  && next->GetOrigCol() > column)
                {
+                  // ... but never to the left of the virtual brace
                   column = next->GetOrigCol();
                }
             }
